@@ -20,3 +20,7 @@ OBLIGATIONS = [
        'every non-degenerate triangle of the 3x3 lattice (quick) + every convex quadrilateral of it (thorough); nodal values and query point symbolic', cases_thorough=[(3, 0, c) for c in TRI] + [(4, 0, c) for c in QUAD], time_cap=120),
     ob('C11.affine', 'h_c11_surface', 'real', [(3, 1, c) for c in TRI], ['affine nodal data are reproduced exactly, whatever triangulation is chosen', 'end'], 'as C11.node_bound', cases_thorough=[(3, 1, c) for c in TRI] + [(4, 1, c) for c in QUAD], time_cap=120),
 ]
+# the area features must consult the surface they were given: the frame obligations (shared with C02/C04) drive ContinentalPlate / OceanicPlate / MantleLayer ::properties with
+# symbolic constant/variable flags for both depth surfaces and assert that a variable min (max) depth surface is the one evaluated
+import C02 as _C02
+OBLIGATIONS = OBLIGATIONS + [dict(o, id=o['id'].replace('C02.frame', 'C11.use')) for o in _C02.OBLIGATIONS if o['id'].startswith('C02.frame')]
